@@ -427,6 +427,15 @@ def check(pid, tier, seed, t0, st, replay):
                         res.violations.append(dict(property=pid, what=b_['what'], query=b_.get('query'), detail=b_.get('detail'),
                                                    how='scan the listed family files and run the query with `pathfinder query --output json`',
                                                    files=[(c_['id'] + '.java', c_['data'].decode('utf-8', 'replace')) for c_ in (fam_[:25] + fam_[-12:])][:40]))
+                if pid == 'C03' and not replay:
+                    # whole-project census with byte-identical copies and a hard link
+                    cstats, cbad = scan.disk_census(cases, ex['recs'], work, B + '/harness', 12 if tier == 'quick' else 80)
+                    stats.update(cstats)
+                    for b_ in cbad[:5]:
+                        if 'case' in b_:
+                            res.violations.append(replay_payload(pid, b_['case'], b_['what'], b_['detail']))
+                        else:
+                            res.violations.append(dict(property=pid, what=b_['what'], detail=b_.get('detail')))
                 if pid in ('C04', 'C09'):
                     # the same inputs through the real read path (readFile -> parser -> builder -> merge)
                     dstats, dbad = scan.disk_locations(cases, work, B + '/harness')
@@ -544,6 +553,59 @@ def scaling(res, work, tier):
             continue
         break
     res.coverage['nesting'] = nest
+    # width families: n, 3n, 9n repetitions of one construct inside ONE enclosing construct (a declaration with many
+    # declarators, a block with many statements, a call with many arguments, a long operator chain, many fields, a
+    # long initializer ...): each size is a small file and must scan in well under the time a quadratic pass needs
+    def fam_src(kind, n):
+        if kind == 'declarators':
+            return 'class W { void m() { int ' + ', '.join('v%d = %d' % (i, i) for i in range(n)) + '; } }\n'
+        if kind == 'field-declarators':
+            return 'class W { int ' + ',\n  '.join('f%d = %d' % (i, i) for i in range(n)) + ';\n}\n'
+        if kind == 'statements':
+            return 'class W { void m() {\n' + ''.join('  g%d(%d);\n' % (i % 7, i) for i in range(n)) + '} }\n'
+        if kind == 'arguments':
+            return 'class W { void m() { g(' + ', '.join('a%d' % i for i in range(n)) + '); } }\n'
+        if kind == 'operator-chain':
+            return 'class W { int m() { return ' + ' + '.join('a%d' % i for i in range(n)) + '; } }\n'
+        if kind == 'fields':
+            return 'class W {\n' + ''.join('  private int f%d = %d;\n' % (i, i) for i in range(n)) + '}\n'
+        if kind == 'long-initializer':
+            return 'class W { int[] t = { ' + ', '.join(str(i) for i in range(n)) + ' }; String s = "' + 'x' * n + '"; }\n'
+        if kind == 'methods':
+            return 'class W {\n' + ''.join('  void m%d(int a) { }\n' % i for i in range(n)) + '}\n'
+        if kind == 'interfaces':
+            return 'class W implements ' + ', '.join('I%d' % i for i in range(n)) + ' { }\n'
+        return 'class W { /** ' + ''.join('\n * @param p%d text %d' % (i, i) for i in range(n)) + '\n */ void m() { } }\n'
+    width = []
+    base_n = 300 if tier == 'quick' else 500
+    for kind in ('declarators', 'field-declarators', 'statements', 'arguments', 'operator-chain', 'fields', 'long-initializer', 'methods', 'interfaces', 'javadoc-tags'):
+        ts = []
+        for mult in (1, 3, 9):
+            src = fam_src(kind, base_n * mult).encode()
+            fp = os.path.join(work, 'width.java')
+            open(fp, 'wb').write(src)
+            open(work + '/widthlist.txt', 'w').write('w x%s %s\n' % (b'W.java'.hex(), fp))
+            r0 = resource.getrusage(resource.RUSAGE_CHILDREN)
+            rc, out, err = run([B + '/harness', 'scan-dump', work + '/widthlist.txt', work + '/widthcases.txt', work + '/widthimpl.txt'], timeout=60)
+            r1 = resource.getrusage(resource.RUSAGE_CHILDREN)
+            cpu = round((r1.ru_utime + r1.ru_stime) - (r0.ru_utime + r0.ru_stime), 3)
+            ts.append((len(src), cpu, rc))
+            if rc != 0 or cpu > 20:
+                break
+        width.append(dict(kind=kind, points=[dict(bytes=a, cpu_s=b, rc=c) for a, b, c in ts]))
+        bad = None
+        if any(rc != 0 for _, _, rc in ts):
+            bad = 'did not finish within 60 s (or failed)'
+        elif ts[-1][1] > 20:
+            bad = 'needed %.1f s of CPU for %d bytes' % (ts[-1][1], ts[-1][0])
+        elif len(ts) == 3 and ts[0][1] > 0.15 and ts[2][1] / ts[0][1] > 250:
+            bad = 'grew %.0fx in CPU time for 9x the input' % (ts[2][1] / ts[0][1])
+        if bad:
+            src = fam_src(kind, base_n * 3).encode()
+            res.violations.append(dict(property='C09', what='scanning the width family `%s` %s' % (kind, bad), detail=[dict(bytes=a, cpu_s=b, rc=c) for a, b, c in ts],
+                                       path='W.java', origin='width-family', data_b64=__import__('base64').b64encode(src).decode(),
+                                       how='graph.Initialize on a directory holding this file at 1x, 3x, 9x the repetitions; CPU time of the scan'))
+    res.coverage['width_families'] = width
     # 9x the input may cost at most ~81x (quadratic) plus slack; cubic would be 729x
     (b1, t1, _), _, (b3, t3, _) = times
     if any(rc != 0 for _, _, rc in times):
